@@ -17,7 +17,11 @@ RULE = ('(schedule) exhaustive: every order in {1, 2, 4, "4_opt"} x N_steps in 0
         '(I/II x order 1/2 x SVD/variational/zip_up) and the time-dependent variants, a random split of the total time into run() calls '
         'with changing N_steps and dt. Oracle: scipy expm(-iHT) on the dense H (from the MPO, C10): observed order on the ladder dt, dt/2, '
         'dt/4; exact charge sector; norm / energy; evolved_time; N steps at once == N single steps (no truncation); imaginary-time TEBD '
-        'against exp(-tau H). (accounting) the same engines with a small chi_max and a harness wrapper around svd_theta / '
+        'against exp(-tau H), imaginary steps run_evolution(N, -i dtau) of ExpMPOEvolution / TDVP against exp(-tau H) as rays. (time_dependent) a '
+        'chain whose couplings are functions of the option "time" (linear, quadratic, cosine; 3-5 sites, Sz / parity / no charges), the '
+        'time-dependent variants of TEBD, ExpMPOEvolution, one-/two-site TDVP, non-zero start_time, split runs: the result equals, to '
+        '1e-9, the same steps performed one by one with the time-independent engine on the model at t0 + i dt (the documented product '
+        'formula), model.options["time"] == evolved_time afterwards, and the coarse error size against the dense product of exponentials. (accounting) the same engines with a small chi_max and a harness wrapper around svd_theta / '
         'decompose_theta_qr_based recording every truncation: engine.trunc_err.eps equals the sum of the recorded eps. Non-trivial: '
         'the two halves of H do not commute (observed Trotter error > 1e-10) or >= 2 run() calls or a truncation happened. Distinct = '
         'distinct canonical JSON spec.')
@@ -427,8 +431,157 @@ def run_schedule(spec):
     return {'nontrivial': N >= 1, 'classes': ['order:%s' % order]}
 
 
+# ------------------------------------------------------------------------------------------------
+# explicitly time-dependent Hamiltonians: documented as U(t0, t) ~ prod_i exp(-i dt H(t0 + i dt)), H kept constant during a step
+
+_TD_MODEL = {}
+
+
+def td_model_class():
+    """XXZ-like chain whose couplings are functions of the option 'time' (the documented protocol of update_time_parameter)"""
+    if 'cls' not in _TD_MODEL:
+        from tenpy.models.model import CouplingMPOModel, NearestNeighborModel
+        from tenpy.networks.site import SpinHalfSite
+
+        class TDChain(CouplingMPOModel, NearestNeighborModel):
+            default_lattice = 'Chain'
+            force_default_lattice = True
+
+            def init_sites(self, model_params):
+                return SpinHalfSite(conserve=model_params.get('conserve', 'Sz', str), sort_charge=True)
+
+            def init_terms(self, model_params):
+                t = model_params.get('time', 0., 'real')
+                c = [model_params.get(k, 0., 'real') for k in ('Jxx0', 'Jxx1', 'Jz0', 'Jz1', 'hz0', 'hz1', 'w')]
+                Jxx = c[0] + c[1] * t
+                Jz = c[2] + c[3] * np.cos(c[6] * t)
+                hz = c[4] + c[5] * t * t
+                for u in range(len(self.lat.unit_cell)):
+                    self.add_onsite(-hz, u, 'Sz')
+                for u1, u2, dx in self.lat.pairs['nearest_neighbors']:
+                    self.add_coupling(Jxx * 0.5, u1, 'Sp', u2, 'Sm', dx, plus_hc=True)
+                    self.add_coupling(Jz, u1, 'Sz', u2, 'Sz', dx)
+        _TD_MODEL['cls'] = TDChain
+    return _TD_MODEL['cls']
+
+
+@st.composite
+def td_specs(draw, tier):
+    q = lambda lo, hi: draw(st.integers(lo, hi)) / 100.
+    return {'L': draw(st.integers(3, 5)), 'conserve': draw(st.sampled_from(['Sz', 'parity', None])),
+            'params': {'Jxx0': q(-150, 150), 'Jxx1': q(-800, 800), 'Jz0': q(-150, 150), 'Jz1': q(-150, 150), 'hz0': q(-150, 150), 'hz1': q(-2000, 2000),
+                       'w': q(0, 3000)},
+            'engine': draw(st.sampled_from(['TDTEBD', 'TDTEBD', 'TDExpMPO', 'TDTDVP2', 'TDTDVP1'])), 'order': draw(st.sampled_from([1, 2, 4, '4_opt'])),
+            'approx': draw(st.sampled_from(['I', 'II'])), 'mpo_order': draw(st.sampled_from([1, 2])), 'compression': 'SVD',
+            'state': draw(st.sampled_from(['product', 'random'])), 'seed': draw(st.integers(0, 2 ** 20)), 'norm': 1.0,
+            'start_time': draw(st.sampled_from([0.0, 0.0, 0.7, -1.3])),
+            'runs': [[draw(st.integers(1, 3)), draw(st.sampled_from([1, 1, 2]))] for _ in range(draw(st.integers(1, 2)))]}
+
+
+def run_time_dependent(spec):
+    try:
+        return _run_time_dependent(spec)
+    except ValueError as e:
+        if "can't determine all charges" in str(e):
+            raise Skip()  # H(t) = 0 at one of the times (as in `evolution`)
+        raise
+
+
+def _run_time_dependent(spec):
+    with warnings.catch_warnings():
+        warnings.simplefilter('ignore')
+        cls = td_model_class()
+
+        def model_at(t):
+            mp = {'L': spec['L'], 'bc_MPS': 'finite', 'conserve': spec['conserve'], 'time': t}
+            mp.update(spec['params'])
+            return cls(mp)
+        kind = spec['engine']
+        static = {'TDTEBD': 'TEBD', 'TDExpMPO': 'ExpMPO', 'TDTDVP2': 'TDVP2', 'TDTDVP1': 'TDVP1'}[kind]
+        tags = dict(engine=kind)
+        if kind == 'TDTEBD':
+            tags['order'] = str(spec['order'])
+        if kind == 'TDExpMPO':
+            tags.update(approx=spec['approx'], mpo_order=spec['mpo_order'])
+        t0 = spec['start_time']
+        model0 = model_at(t0)
+        sites = model0.lat.mps_sites()
+        psi0, v0 = initial_state(spec, sites)
+        n0 = np.linalg.norm(v0)
+        base_dt = 0.02
+        # the engine under test
+        psi = psi0.copy()
+        eng = None
+        times = []  # start times of all steps, step sizes
+        t = t0
+        for N_steps, mult in spec['runs']:
+            dt = base_dt * mult
+            if eng is None:
+                eng = make_td_engine(kind, spec, psi, model0, dt, N_steps, t0)
+            else:
+                eng.options['dt'] = dt
+                eng.options['N_steps'] = N_steps
+            eng.run()
+            for _ in range(N_steps):
+                times.append((t, dt))
+                t += dt
+            require(abs(eng.evolved_time - t) <= 1e-12 * max(1., abs(t)), 'evolved_time', 'evolved_time = %r, expected %r' % (eng.evolved_time, t), **tags)
+        res = M.mps_to_dense(eng.psi).reshape(-1)
+        mt = eng.model.options.get('time', None)
+        require(mt is not None and abs(mt - t) <= 1e-12 * max(1., abs(t)), 'model-time', "model.options['time'] = %r after the run, evolved_time %r" % (mt, t), **tags)
+        # (1) documented product formula, step by step with the time-independent engine and the model at t0 + i dt
+        phi = psi0.copy()
+        for (ti, dti) in times:
+            e = make_td_engine(static, spec, phi, model_at(ti), dti, 1, ti)
+            e.run()
+            phi = e.psi
+        ref = M.mps_to_dense(phi).reshape(-1)
+        d1 = np.linalg.norm(res - ref) / n0
+        require(d1 <= 1e-9, 'td-steps-differ', 'time-dependent engine vs the same steps with H(t0 + i dt) one by one: |diff| = %r' % d1, **tags)
+        # (2) dense product of exponentials: coarse size of the splitting error
+        ex = v0.copy()
+        nH = 0.
+        for (ti, dti) in times:
+            H = M.mpo_to_dense(model_at(ti).H_MPO)
+            nH = max(nH, np.linalg.norm(H, 2))
+            ex = scipy.linalg.expm(-1j * dti * H) @ ex
+        if nH < 1e-6:
+            raise Skip()
+        err = np.linalg.norm(res - ex) / n0
+        if kind in ('TDTEBD', 'TDExpMPO') or spec['state'] == 'random':
+            require(err <= 50 * (2 * base_dt * nH) ** 2 * max(1., len(times)) + 1e-9, 'td-error-size', 'error %r vs prod_i exp(-i dt H(t_i)), dt |H| = %r' % (err, 2 * base_dt * nH), **tags)
+        # is H(t) really changing?
+        Hs = M.mpo_to_dense(model_at(times[0][0]).H_MPO)
+        He = M.mpo_to_dense(model_at(t).H_MPO)
+        changing = np.linalg.norm(Hs - He) > 1e-3 * max(1., nH)
+        classes = ['engine:' + kind, 'state:' + spec['state'], 'H-changing' if changing else 'H-constant']
+        if len(spec['runs']) > 1:
+            classes.append('split-runs')
+        if t0 != 0:
+            classes.append('start_time')
+    return {'nontrivial': bool(changing and len(times) >= 2), 'classes': classes}
+
+
+def make_td_engine(kind, spec, psi, model, dt, N_steps, start_time):
+    from tenpy.algorithms import tebd, tdvp, mpo_evolution
+    tp = {'chi_max': 4096, 'svd_min': 1e-14, 'trunc_cut': None}
+    opts = {'dt': dt, 'N_steps': N_steps, 'trunc_params': tp, 'start_time': start_time, 'max_trunc_err': None}
+    if kind in ('TEBD', 'TDTEBD'):
+        opts['order'] = spec['order']
+        cls = {'TEBD': tebd.TEBDEngine, 'TDTEBD': tebd.TimeDependentTEBD}[kind]
+    elif kind in ('TDVP1', 'TDVP2', 'TDTDVP1', 'TDTDVP2'):
+        opts['lanczos_params'] = {'N_max': 40, 'P_tol': 1e-14, 'reortho': True}
+        cls = {'TDVP1': tdvp.SingleSiteTDVPEngine, 'TDVP2': tdvp.TwoSiteTDVPEngine, 'TDTDVP1': tdvp.TimeDependentSingleSiteTDVP,
+               'TDTDVP2': tdvp.TimeDependentTwoSiteTDVP}[kind]
+    else:
+        opts.update(approximation=spec['approx'], order=spec['mpo_order'], compression_method='SVD')
+        cls = {'ExpMPO': mpo_evolution.ExpMPOEvolution, 'TDExpMPO': mpo_evolution.TimeDependentExpMPOEvolution}[kind]
+    return cls(psi, model, opts)
+
+
 SUBCHECKS = [
     Sub('schedule', None, run_schedule, quick=260, thorough=260, enumerate_fn=enum_schedule),
+    Sub('time_dependent', td_specs, run_time_dependent, quick=200, thorough=8000),
     Sub('evolution', evo_specs, run_evolution, quick=160, thorough=12000),
     Sub('accounting', acc_specs, run_accounting, quick=260, thorough=12000),
 ]
